@@ -154,6 +154,8 @@ func battery() []Case {
 		"w-collide temps=2 names=2 prep=1 D.t1.f.a.0,D.t1.c.a.0,T.t1.a,D.t2.f.a.0,D.t2.c.a.0,T.t2.a,D.b.f.a.0,D.b.c.a.0,T.b.a",
 		"w-sput temps=2 names=2 prep=1 D.t1.c.a.0,T.t1.a,T.b.a,T.t2.a,D.t2.c.a.1,T.t2.a,T.t1.a,D.b.c.a.0,T.b.a,T.t1.a",
 		"w-eval temps=2 names=2 prep=1 D.t1.c.a.6,D.t1.i.a.4,D.t1.f.a.5,D.b.c.b.6,D.b.f.b.5,D.t2.c.b.6,X.t1,T.t1.*",
+		"w-autoload-bs temps=2 names=2 prep=1 D.t1.c.a.8,D.t1.i.a.6,D.t2.c.a.10,D.t2.i.a.8,D.b.c.b.8,D.b.i.b.8,D.t1.c.b.11,D.t2.i.b.7,X.t1,T.t1.*",
+		"w-noprep-autoload temps=2 names=2 prep=0 D.t1.c.a.9,D.t2.i.a.7,X.t1,D.t1.c.b.7,D.t2.i.b.5,X.t2,D.t2.c.a.11,D.t1.i.a.8,X.t1,D.t1.c.a.10,X.t2,D.t2.i.a.6",
 		"w-autoload-c temps=2 names=2 prep=1 D.t1.c.a.7,D.b.c.b.7,D.t2.c.b.7,D.t2.c.a.7,X.t1,T.t1.*",
 		"w-autoload-i temps=2 names=2 prep=1 D.t1.i.a.5,D.b.i.b.5,D.t2.i.b.5,D.t2.i.a.5,X.t1,T.t1.*",
 		"w-noprep-get temps=2 names=2 prep=0 G.t1.a",
